@@ -252,6 +252,17 @@ class Map(T):
         return "Map(%r,%r)" % (self.k, self.v)
 
 
+class TotalMap(Map):
+    """ghost map defined on every key (no KeyError); natively a dict with a default"""
+
+    kind = "map"
+
+    def __init__(self, k, v, default=0):
+        Map.__init__(self, k, v)
+        self.total = True
+        self.default = default
+
+
 class SetT(T):
     kind = "set"
 
